@@ -111,14 +111,14 @@ structure PlaySt where
 def callReq (cfg : Cfg) (b : Bytes) (p : PlaySt) : PlaySt :=
   let c := { p.conn with events := [] }
   let (c, rc) := reqData cfg (some b) b.length c
-  let line := s!"req:rc={rc}:consumed={c.inn.read}:ev=[{showEvents c.events}]"
+  let line := s!"req:rc={rc}:consumed={c.inn.read}:len={b.length}:ev=[{showEvents c.events}]"
   let other := if rc == STREAM_DATA_OTHER then some (b.drop c.inn.read.toNat) else none
   { p with conn := c, inOther := other, log := line :: p.log }
 
 def callRes (cfg : Cfg) (b : Bytes) (p : PlaySt) : PlaySt :=
   let c := { p.conn with events := [] }
   let (c, rc) := resData cfg (some b) b.length c
-  let line := s!"res:rc={rc}:consumed={c.out.read}:ev=[{showEvents c.events}]"
+  let line := s!"res:rc={rc}:consumed={c.out.read}:len={b.length}:ev=[{showEvents c.events}]"
   let other := if rc == STREAM_DATA_OTHER then some (b.drop c.out.read.toNat) else none
   { p with conn := c, outOther := other, log := line :: p.log }
 
@@ -143,11 +143,11 @@ def playStep (cfg : Cfg) (p : PlaySt) : PlayItem → PlaySt
   | .reqGap n =>
     let c := { p.conn with events := [] }
     let (c, rc) := reqData cfg none n c
-    { p with conn := c, log := s!"reqgap:rc={rc}:consumed={c.inn.read}:ev=[{showEvents c.events}]" :: p.log }
+    { p with conn := c, log := s!"reqgap:rc={rc}:consumed={c.inn.read}:len={n}:ev=[{showEvents c.events}]" :: p.log }
   | .resGap n =>
     let c := { p.conn with events := [] }
     let (c, rc) := resData cfg none n c
-    { p with conn := c, log := s!"resgap:rc={rc}:consumed={c.out.read}:ev=[{showEvents c.events}]" :: p.log }
+    { p with conn := c, log := s!"resgap:rc={rc}:consumed={c.out.read}:len={n}:ev=[{showEvents c.events}]" :: p.log }
 
 def playAll (cfg : Cfg) (c : Htp.Conn.Conn) (items : List PlayItem) : Htp.Conn.Conn × String :=
   let p := items.foldl (playStep cfg) { conn := c }
@@ -175,22 +175,22 @@ def connOp (slot : Option ConnSlot) : List String → Option ConnSlot × String
       | ["req", h] => match bytesOfHex h with
         | some b =>
           let (c, rc) := reqData s.cfg (some b) b.length c
-          (some { s with conn := c }, s!"rc={rc} consumed={c.inn.read} ev=[{showEvents c.events}]{unsupportedMark c}")
+          (some { s with conn := c }, s!"rc={rc} consumed={c.inn.read} len={b.length} ev=[{showEvents c.events}]{unsupportedMark c}")
         | none => (slot, "bad-op")
       | ["res", h] => match bytesOfHex h with
         | some b =>
           let (c, rc) := resData s.cfg (some b) b.length c
-          (some { s with conn := c }, s!"rc={rc} consumed={c.out.read} ev=[{showEvents c.events}]{unsupportedMark c}")
+          (some { s with conn := c }, s!"rc={rc} consumed={c.out.read} len={b.length} ev=[{showEvents c.events}]{unsupportedMark c}")
         | none => (slot, "bad-op")
       | ["reqgap", n] => match n.toNat? with
         | some k =>
           let (c, rc) := reqData s.cfg none k c
-          (some { s with conn := c }, s!"rc={rc} consumed={c.inn.read} ev=[{showEvents c.events}]{unsupportedMark c}")
+          (some { s with conn := c }, s!"rc={rc} consumed={c.inn.read} len={k} ev=[{showEvents c.events}]{unsupportedMark c}")
         | none => (slot, "bad-op")
       | ["resgap", n] => match n.toNat? with
         | some k =>
           let (c, rc) := resData s.cfg none k c
-          (some { s with conn := c }, s!"rc={rc} consumed={c.out.read} ev=[{showEvents c.events}]{unsupportedMark c}")
+          (some { s with conn := c }, s!"rc={rc} consumed={c.out.read} len={k} ev=[{showEvents c.events}]{unsupportedMark c}")
         | none => (slot, "bad-op")
       | ["close"] =>
         let (c, _, _) := connClose s.cfg c
